@@ -252,6 +252,19 @@ func (r *Runner) ApplyEnv(ev M, contents map[string][]byte) (bool, error) {
 		return true, os.RemoveAll(r.wtPath(ev["p"].(string)))
 	case "mkdir":
 		return true, os.MkdirAll(r.wtPath(ev["p"].(string)), 0o777)
+	case "dfswap":
+		p := r.wtPath(ev["p"].(string))
+		data := contents[ev["c"].(string)]
+		if err := os.RemoveAll(p); err != nil {
+			return true, err
+		}
+		if b, _ := ev["todir"].(bool); b {
+			if err := os.MkdirAll(p, 0o777); err != nil {
+				return true, err
+			}
+			return true, os.WriteFile(filepath.Join(p, "inner"), data, 0o666)
+		}
+		return true, os.WriteFile(p, data, 0o666)
 	case "touch":
 		p := r.wtPath(ev["p"].(string))
 		tm := time.Now().Add(time.Duration(toInt(ev["dt"])) * time.Second)
